@@ -17,6 +17,7 @@ package idl
 //@ pred tokenStart(p) = p.position >= len(p.input) || (!ws(p.input[p.position]) && p.input[p.position] != 35)
 
 //@ ghost gpos int
+//@ ghost gname int
 //@ ghost gone int
 //@ ghost gtwo int
 //@ ghost cstart [int]int
@@ -191,13 +192,13 @@ package idl
 
 //@ func (*parser).readError {C05 C06 | safety: C09}
 //@   requires [wf] wf(p)
-//@   modifies p.position, p.lineStart, p.lastComment, gpos, cstart
+//@   modifies p.position, p.lineStart, p.lastComment, gpos, cstart, gname
 //@   ensures [wf1 C05 C06 C09] result1 == nil ==> wf1(p) && p.position >= old(p.position) && result0 != nil && fresh(result0)
 //@   ensures [wf C05 C06] result1 == nil ==> wf(p)
 //@   ensures [fields C05 C06] result1 == nil ==> result0.Name != ""
-//@   ensures [softfail C06] result1 == nil && result0.Type == nil ==> (forall i int :: gpos <= i && i < p.position ==> p.input[i] == 32 || p.input[i] == 9)
+//@   ensures [softfail C06] result1 == nil && result0.Type == nil ==> (forall i int :: gname <= i && i < p.position ==> p.input[i] == 32 || p.input[i] == 9)
 //@   ensures [err C06] result1 != nil ==> result0 == nil
-//@   ghostset at call(readTypeName)#1 : gpos = p.position
+//@   ghostset at call(readTypeName)#1 : gname = p.position
 //@   assert [tok-name C05] at call(readTypeName)#1 : tokenStart(p)
 //@   assert [tok-type C05] at call(readType)#1 : p.position >= len(p.input) || (p.input[p.position] != 32 && p.input[p.position] != 9)
 
@@ -207,7 +208,7 @@ package idl
 
 //@ func (*parser).readIDL {C05 C06 | safety: C09}
 //@   requires [wf] wf(p)
-//@   modifies p.position, p.lineStart, p.lastComment, gpos, cstart, gone, gtwo
+//@   modifies p.position, p.lineStart, p.lastComment, gpos, cstart, gone, gtwo, gname
 //@   ensures [nonnil C05 C06 C09] result1 == nil ==> result0 != nil && fresh(result0)
 //@   ensures [eof C06] result1 == nil ==> p.position >= len(p.input)
 //@   ensures [members C05] result1 == nil ==> len(result0.Members) == len(result0.Aliases) + len(result0.Methods) + len(result0.Errors)
@@ -229,7 +230,7 @@ package idl
 //@   loop 1 decreases len(p.input) - p.position
 
 //@ func New {C05 C06 | safety: C09}
-//@   modifies gpos, cstart, gone, gtwo
+//@   modifies gpos, cstart, gone, gtwo, gname
 //@   ensures [notree C06] result1 != nil ==> result0 == nil
 //@   ensures [desc C05] result1 == nil ==> result0 != nil && result0.Description == description
 //@   ensures [methods C06] result1 == nil ==> len(result0.Methods) >= 1
